@@ -169,12 +169,12 @@ theorem PInv_init (R : ViewRel) (c : Cfg) (hfix : c.dirSyncFix = true) (hsw : c.
 /-! ## every history preserves the invariants -/
 
 theorem exec_pinv (R : ViewRel) (m : MState) (h : List Sched) (hwf : m.fs.WF2)
-    (hI : Inv R m.p (fvOf m.fs.quad)) (hP : PInv R m.p m.fs.quad) (hok : HistOk R m.p h) :
+    (hI : Inv R m.p (fvOf m.fs.quad)) (hP : PInv R m.p m.fs.quad) (hok : SchedHistOk R m.p h) :
     (m.exec h).fs.WF2 ∧ Inv R (m.exec h).p (fvOf (m.exec h).fs.quad) ∧ PInv R (m.exec h).p (m.exec h).fs.quad := by
   induction h generalizing m with
   | nil => exact ⟨hwf, hI, hP⟩
   | cons x h ih =>
-    rw [HistOk_cons] at hok
+    rw [SchedHistOk_cons] at hok
     obtain ⟨hPs, hn⟩ := PInv_step R m.p m.fs.quad hI hP x
     obtain ⟨hwf', hq⟩ := Fs.quad_run m.fs hwf (m.p.step x).1 (noRen_spec _ hn)
     have hi := Inv_step R m.p (fvOf m.fs.quad) hI x hok.1
